@@ -358,7 +358,7 @@ func (c *Ctx) statelessRule(rule, label string, entries []*ssa.Function) {
 var safeGlobalTypes = []string{"*regexp.Regexp", "*log/slog.Logger", "*log.Logger", "error", "sync.RWMutex", "sync.Mutex"}
 
 func init() {
-	props["C20"] = &propDef{run: runC20, explanation: "C20 decided statically for the library's own state: (S1) inventory of every package-level variable of the module; each is stored only by package initialisation (or under its owning mutex), and no store / map update / append / delete / sort anywhere in the module targets memory reachable from one (effect engine with globals as sources), except values of documented concurrency-safe types; (S2) every store to a field of a module struct through a pointer targets an object allocated in the same function (not yet shared), the parameter of a functional-option closure (construction time), or happens under the struct's mutex — in particular no method of parser/applier/composer/transformers/metadata/document handler/VDR/version providers/registries/client writes its receiver; writes through maps/slices held in component fields require the mutex; (L1) the mutex-guarded fields (inferred, confirmed, frozen: nsprovider.Provider.clients, clientregistry.Registry.factories, log.handler) are accessed only with the lock held in the required mode; (L2) every Lock/RLock is paired with its Unlock/RUnlock on all exits; (S3) the module starts no goroutines and uses no channels or sync/atomic. Consequence: operational calls on distinct inputs share no mutable library memory except under a lock. Not covered: third-party internals (did-go/json-gold loaders, go-jose, user-supplied slog handlers/validators). (L4) a guarded container read under the lock is used only inside the critical section and does not leave the function; (L5) a mutex-holding struct is never copied. Module code never assigns a package-level variable of another package. No package-level variable or struct field of the module is a sync.Map or sync.Pool. L5: no re-entrant acquisition of a held mutex; the content of a shared ProtocolConfig parameter is a source of the shared-state analysis."}
+	props["C20"] = &propDef{run: runC20, explanation: "C20 decided statically for the library's own state: (S1) inventory of every package-level variable of the module; each is stored only by package initialisation (or under its owning mutex), and no store / map update / append / delete / sort anywhere in the module targets memory reachable from one (effect engine with globals as sources), except values of documented concurrency-safe types; (S2) every store to a field of a module struct through a pointer targets an object allocated in the same function (not yet shared), the parameter of a functional-option closure (construction time), or happens under the struct's mutex — in particular no method of parser/applier/composer/transformers/metadata/document handler/VDR/version providers/registries/client writes its receiver; writes through maps/slices held in component fields require the mutex; (L1) the mutex-guarded fields (inferred, confirmed, frozen: nsprovider.Provider.clients, clientregistry.Registry.factories, log.handler) are accessed only with the lock held in the required mode; (L2) every Lock/RLock is paired with its Unlock/RUnlock on all exits; (S3) the module starts no goroutines and uses no channels or sync/atomic. Consequence: operational calls on distinct inputs share no mutable library memory except under a lock. Not covered: third-party internals (did-go/json-gold loaders, go-jose, user-supplied slog handlers/validators). (L4) a guarded container read under the lock is used only inside the critical section and does not leave the function; (L5) a mutex-holding struct is never copied. Module code never assigns a package-level variable of another package. No package-level variable or struct field of the module is a sync.Map or sync.Pool. L5: no re-entrant acquisition of a held mutex; the content of a shared ProtocolConfig parameter is a source of the shared-state analysis. The protocol parameters are read-only (S2)."}
 }
 
 func runC20(c *Ctx) {
@@ -705,7 +705,10 @@ func runC20(c *Ctx) {
 		})
 	}
 	c.Check("C20.S2", "field-stores-inventory", nStores >= 10, 0, fmt.Sprintf("%d stores to fields of module structs examined", nStores))
-	c.Min("C20.S2", 5)
+	// the protocol parameters a parser or applier was built with are shared by every call on it: neither assigns a field
+	// of its protocol.Protocol (a "relaxed copy" made by copying the pointer rewrites the shared configuration)
+	c.protocolReadOnlyRule("C20.S2")
+	c.Min("C20.S2", 6)
 
 	// ---------- L1 locksets on the frozen table of guarded fields
 	type guarded struct{ pkg, typ, field, mutex string }
